@@ -118,8 +118,10 @@ peg::parser! {
           }
 
         rule builtin() -> Term<Name>
-          = "(" _* "builtin" _+ b:ident() _* ")" {
-            Term::Builtin(DefaultFunction::from_str(&b).unwrap())
+          = "(" _* "builtin" _+ b:ident() _* ")" {?
+            DefaultFunction::from_str(&b)
+                .map(Term::Builtin)
+                .or(Err("a known builtin function name"))
           }
 
         rule var(interner: &mut Interner) -> Term<Name>
